@@ -93,6 +93,14 @@ func runC20(c *core.Ctx) {
 	}
 	g := gen.New(c.R)
 	t := caseTree(c, g, 7)
+	if c.Case%10 == 4 {
+		// two code layers: the outer one wins, also when it is Unknown (the "no code" default)
+		inner := &gen.Node{Kind: "grpc", N: []int{[]int{1, 3, 5, 9, 14, 16}[c.R.Intn(6)]}, Kids: []*gen.Node{t}}
+		if c.R.Intn(2) == 0 {
+			inner = g.Around("wrap", inner)
+		}
+		t = &gen.Node{Kind: "grpc", N: []int{[]int{2, 2, 7, 1}[c.R.Intn(4)]}, Kids: []*gen.Node{inner}}
+	}
 	gen.Walk(t, func(n *gen.Node, _ bool) {
 		if n.Kind == "grpc" && n.N[0] == 0 {
 			n.N[0] = 1 + c.R.Intn(16) // a status with codes.OK is a success on the wire: not an error delivery
